@@ -365,6 +365,33 @@ def run(rep, facts, tier):
             elif ok:
                 why = 'on Err the saved context is popped and restored before the error is returned (built, failed at run: halted, not rolled back)'
         rep.add('C15.R2', 'C15.R2:eval:failed-run-leaves-context-like-compile+run', ok, why, cc.name, t.get('at'))
+        # ... stopped at the failing instruction, as compile + run leaves it: the ip of the context that is left is carried into
+        # the one that is restored (some assignment to an `ip` field on the Err side takes its value from ctx.ip)
+        carried = []
+        for et in err_targets:
+            seen, todo = set(), [et]
+            while todo:
+                b2 = todo.pop()
+                if b2 in seen:
+                    continue
+                seen.add(b2)
+                for i2, st in enumerate(cc.blocks[b2]['stmts']):
+                    if st.get('k') != 'assign' or not st['lhs']['p']:
+                        continue
+                    last = st['lhs']['p'][-1]
+                    if not (isinstance(last, dict) and last.get('f') == 'ip'):
+                        continue
+                    rv = st['rv']
+                    src = expr_str(cc.expr_of_operand(rv['o']), -12) if rv.get('k') == 'use' else ''
+                    if 'ctx.ip' in src:
+                        carried.append((b2, st.get('at')))
+                todo += list(cc.succ(b2))
+        okc = bool(carried)
+        rep.add('C15.R2', 'C15.R2:eval:failed-run-stops-at-the-failing-instruction', okc,
+                'on Err the ip of the context that is left is carried into the restored one (%s)' % carried[0][1] if okc else
+                'a run-time failure under eval restores the enclosing context with the ip it had when the source was opened: the program is '
+                'not stopped at the failing instruction as compile + run leaves it (and the halt that follows records the wrong ip on the '
+                'reverse log)', cc.name, t.get('at'))
     rep.floor('C15.R2 Eval-mode run() in context_close', n_run, 1)
 
     # a user-defined immediate word is run at build time with run(): the frame it returns into must make the VM stop (return
@@ -387,3 +414,6 @@ def run(rep, facts, tier):
             'run_immediate lets the word return to %s: run() then executes the part of the current source that is already compiled, at '
             'build time (`: x immediate 1 ; 5 x 6` leaves 1 5 5 6 under compile + run, 1 5 6 under eval)' % [e[:40] for e, _ in rets_to],
             ri.name, (rets_to or [(0, ri.j['span'])])[0][1])
+
+# as-built addendum
+EXPLANATION += " As built (DESIGN 9.2): R1 also: readers of the log are the debugger words and the context open/close marks (through length-mark accessors). R2 also: a failed run under eval leaves the context like compile+run; an immediate word returns to the end of the code and the builder's ip is restored; eval of a further source runs pending code first."
